@@ -78,10 +78,14 @@ def judge_chain(case, r):
     per_sweep = [len(sw) for sw in r.get("micro", [])]
     for k, s in enumerate(r.get("solves", [])):
         if s.get("mask_dim") == sd and not s.get("hook_error") and s.get("algo") == "direct":
+            # the local problem spans the whole sector (P unitary): exact for every solver that converges
+            # asserted for the dense solver only: Davidson on a whole-sector problem was observed to stop short of the exact
+            # value (second root off by 2e-4; (H-omega)^2 off by 2e-2) -- convergence, the residual clause
             if first_full is None:
                 first_full = k
+            tolx = TOL_EXACT
             for j, e in enumerate(s.get("e", [])):
-                if j < len(exact) and abs(e - exact[j]) > TOL_EXACT * _scale(exact[j]):
+                if j < len(exact) and abs(e - exact[j]) > tolx * _scale(exact[j]):
                     bad.append(("full-bond-exactness", {"solve": k, "root": j, "reported": e, "exact": exact[j], "mask_dim": sd}))
     r["_full_reached"] = first_full is not None
     # returned states
@@ -90,8 +94,8 @@ def judge_chain(case, r):
         if f.get("error"):
             bad.append(("returned-state", {"root": j, "error": f["error"][-400:]}))
             continue
-        if abs(f["norm"] - 1.0) > 1e-9:
-            bad.append(("returned-state", {"root": j, "what": "not normalised", "norm": f["norm"]}))
+        if abs(f["norm"] - 1.0) > 1e-8:
+            bad.append(("returned-state", {"root": j, "what": "not normalised", "norm": f["norm"], "nroots": len(fins)}))
         if f["out_of_sector"] > TOL_SECTOR:
             bad.append(("returned-state", {"root": j, "what": "weight outside the sector", "w": f["out_of_sector"]}))
         if f["dense_energy"] < exact[0] - TOL_BOUND * _scale(exact[0]):
@@ -114,6 +118,38 @@ def judge_chain(case, r):
                 if abs(f["dense_energy"] - ej) > TOL_EXACT * _scale(ej):
                     bad.append(("returned-state", {"root": j, "what": "no truncation: the energy of the returned state differs from the energy reported by the local solve it was taken from",
                                                    "state": f["dense_energy"], "solve": ej, "cidx": opt[1]}))
+    # exact ranks: no bond of the chain needs more than min(dim left block, dim right block) states
+    pd = r.get("pdims") or []
+    bound = 1
+    for cut in range(1, len(pd)):
+        lft = rgt = 1
+        for x in pd[:cut]:
+            lft *= x
+        for x in pd[cut:]:
+            rgt *= x
+        bound = max(bound, min(lft, rgt))
+    nexec = len(micro)
+    ms = [m for m, _ in case["procedure"][:nexec]]
+    # the optimiser declared convergence itself (stopped before the procedure ended), with a tight tolerance, and the last two
+    # sweeps ran at the exact ranks (nothing truncated): the returned state must carry the last reported energy
+    if pd and nexec >= 2 and nexec < len(case["procedure"]) and case.get("e_rtol", 1e-6) <= 1e-10 and min(ms[-2:]) >= bound and fins:
+        last = _roots(r["macro"][-1])
+        r["_stopped_at_exact_ranks"] = True
+        for j, f in enumerate(fins):
+            if f.get("error") or j >= len(last):
+                continue
+            if abs(f["dense_energy"] - last[j]) > TOL_EXACT * _scale(last[j]):
+                bad.append(("returned-state", {"root": j, "what": "convergence declared at the exact ranks, but the energy of the returned state differs from the last reported energy",
+                                               "state": f["dense_energy"], "reported": last[j], "bond_dims": f.get("bond_dims"), "procedure": case["procedure"][:nexec]}))
+    # runs that start from a full-rank state, reduce the bond limit and restore it to the exact ranks (two-site): the returned
+    # state must be the exact eigenstate and carry the last reported energy, however early the optimiser stops
+    if case.get("expect_final_exact") and pd and ms and ms[-1] >= bound and fins and not fins[0].get("error"):
+        f = fins[0]
+        last = _roots(r["macro"][-1])[0]
+        if abs(f["dense_energy"] - exact[0]) > TOL_EXACT * _scale(exact[0]) or abs(f["dense_energy"] - last) > TOL_EXACT * _scale(last):
+            bad.append(("returned-state", {"root": 0, "what": "bond limit restored to the exact ranks: the returned state's <H> must equal the exact eigenvalue and the last reported energy",
+                                           "state": f["dense_energy"], "exact": exact[0], "reported_per_sweep": [(_roots(x)[0]) for x in r["macro"]],
+                                           "bond_dims": f.get("bond_dims"), "procedure": case["procedure"][:nexec]}))
     # converged at full bond dimension: last reported energies == exact == energy of the returned states
     if first_full is not None and per_sweep:
         sweep_of_full = 0
@@ -155,20 +191,28 @@ def judge_tree(case, r):
     if not r.get("ok"):
         return [("crash", {"traceback": r.get("crash", "")[-600:]})]
     exact = r["exact"]
+    algo = case.get("algo", "davidson")
     bad += [("tree-" + k, d) for k, d in judge_solves(r, tree=True)]
     sd = r["sector_dim"]
+    nsw = max(1, len(r.get("macro", [])))
+    per_sweep = len(r.get("solves", [])) // nsw if r.get("solves") else 0
     full = False
+    first_full_sweep = None
     for k, s in enumerate(r.get("solves", [])):
         e = s["e"]
         if e < exact[0] - TOL_BOUND * _scale(exact[0]):
             bad.append(("tree-variational-bound", {"where": "micro", "solve": k, "reported": e, "exact": exact[0]}))
-        # a two-site problem on the whole sector is exact IF the eigen-solver is: asserted for the direct solver
-        # only (Davidson may stop at / converge to a higher Ritz value: convergence is residual, it is counted)
         if s.get("mask_dim") == sd and not s.get("hook_error"):
-            if case.get("algo") == "direct":
-                full = True
+            # a two-site problem on the whole sector (P unitary): every solver that asks for the smallest algebraic eigenvalue and
+            # converges returns the exact one.  Asserted per solve for the dense and the ARPACK branch (converge to machine
+            # precision or raise); the Davidson branch may stop at max_cycle, its FINAL result is asserted below.
+            if first_full_sweep is None and per_sweep:
+                first_full_sweep = k // per_sweep
+            full = True
+            if algo in ("direct", "arpack"):
                 if abs(e - exact[0]) > TOL_EXACT * _scale(exact[0]):
-                    bad.append(("tree-full-bond-exactness", {"solve": k, "reported": e, "exact": exact[0]}))
+                    bad.append(("tree-full-bond-exactness", {"solve": k, "algo": algo, "reported": e, "exact": exact[0],
+                                                             "note": "the local problem spans the whole sector"}))
             elif abs(e - exact[0]) > TOL_EXACT * _scale(exact[0]):
                 r["_iterative_not_converged"] = r.get("_iterative_not_converged", 0) + 1
     r["_full_reached"] = full
@@ -179,7 +223,7 @@ def judge_tree(case, r):
     if f.get("error"):
         bad.append(("tree-returned-state", {"error": f["error"][-400:]}))
     elif f:
-        if abs(f["norm"] - 1.0) > 1e-9:
+        if abs(f["norm"] - 1.0) > 1e-8:
             bad.append(("tree-state-not-normalised", {"what": "the TTNS optimised in place by optimize_ttns is not normalised (truncation in update_2site, no normalisation afterwards)",
                                                       "norm": f["norm"], "procedure": case["procedure"]}))
         if f["out_of_sector"] > TOL_SECTOR:
@@ -189,10 +233,15 @@ def judge_tree(case, r):
         if abs(f["expectation_H"] / f["norm"] ** 2 - f["dense_energy"]) > 1e-8 * _scale(f["dense_energy"]):
             bad.append(("tree-returned-state", {"what": "expectation(ttno) != dense energy", "exp": f["expectation_H"], "dense": f["dense_energy"]}))
         no_trunc = all(m >= r.get("hilbert_dim", 10 ** 9) for m, _ in case["procedure"])
-        if full and no_trunc and len(r.get("macro", [])) >= 2:
-            if abs(r["macro"][-1] - exact[0]) > TOL_EXACT * _scale(exact[0]):
-                bad.append(("tree-full-bond-exactness", {"where": "last macro energy", "reported": r["macro"][-1], "exact": exact[0]}))
-            if abs(f["dense_energy"] - r["macro"][-1]) > TOL_EXACT * _scale(exact[0]):
+        stable = algo in ("direct", "arpack") or (nsw >= 2 and abs(r["macro"][-1] - r["macro"][-2]) <= 1e-9 * _scale(r["macro"][-1]))
+        r["_converged_full"] = bool(full and no_trunc and first_full_sweep is not None and first_full_sweep < nsw - 1 and stable)
+        if r["_converged_full"]:
+            tol = TOL_EXACT if algo in ("direct", "arpack") else 1e-6
+            if abs(r["macro"][-1] - exact[0]) > tol * _scale(exact[0]):
+                bad.append(("tree-full-bond-exactness", {"where": "last macro energy", "algo": algo, "reported": r["macro"][-1], "exact": exact[0]}))
+            if abs(f["dense_energy"] - exact[0]) > tol * _scale(exact[0]):
+                bad.append(("tree-full-bond-exactness", {"where": "energy of the returned state", "algo": algo, "state": f["dense_energy"], "exact": exact[0]}))
+            if abs(f["dense_energy"] - r["macro"][-1]) > tol * _scale(exact[0]):
                 bad.append(("tree-returned-state", {"what": "energy of the final state differs from the reported energy at full bond dimension",
                                                     "state": f["dense_energy"], "reported": r["macro"][-1]}))
     return bad
